@@ -120,6 +120,10 @@ func ExecSteps(env *sim.Env, root string, steps []Step, st *Stats) []StepResult 
 			r.Err = os.RemoveAll(p)
 		case "mkdir":
 			r.Err = os.MkdirAll(p, 0o755)
+		case "chmod":
+			if _, err := os.Lstat(p); err == nil {
+				r.Err = os.Chmod(p, os.FileMode(s.K))
+			}
 		case "symlink":
 			os.Remove(p)
 			r.Err = os.Symlink(w(root, string(s.Data)), p)
@@ -329,6 +333,9 @@ func InputForm(form, setup string) (cwd, input, gofile string) {
 		return strings.Replace(dir, modRoot, "{W}/modlink", 1), base, ""
 	case "gofile":
 		return dir, "", base
+	case "gofile-with-dir":
+		// not what go generate does, but what a user may: GOFILE with directory components
+		return modRoot, "", relFromMod
 	case "gofile-overridden":
 		// GOFILE names something else; the argument is the input
 		return dir, base, "doc.go"
